@@ -8,10 +8,10 @@ RULE = ('C14 histories on charts whose handlers also defer the current event and
         'nothing may be posted), a recalled event joins the BACK of the pending model, the deferred length must match after every '
         'step and the dispatch order of all events must equal the model (so a deferred event is never dispatched before its recall). '
         'Every sixth case runs 2-3 threads that recall at the same time (fewer recalls than deferred events) under detsched: each of the '
-        'oldest events must be returned and queued exactly once. distinct_nontrivial = distinct (host, defers, recalls, recalls-on-empty, steps) tuples with >= 1 defer or recall')
+        'oldest events must be returned and queued exactly once. Every fortieth case defers 501-1180 events on a chart class that raises QUEUE_SIZE to 600-1200 (the knob for queue capacities): none may be lost, recalls return the oldest first. distinct_nontrivial = distinct (host, defers, recalls, recalls-on-empty, steps) tuples with >= 1 defer or recall')
 CASES = {'quick': 4000, 'thorough': 250000}
 BUDGET = {'quick': 150, 'thorough': 300}
-REQUIRE = {'defers': 1000, 'recalls': 1000, 'recalls_on_empty': 100, 'overlapping_recall_runs': 300}
+REQUIRE = {'defers': 1000, 'recalls': 1000, 'recalls_on_empty': 100, 'overlapping_recall_runs': 300, 'large_capacity_cases': 60}
 ASSUME = ['queue capacity (500) is not reached']
 
 
@@ -66,7 +66,42 @@ def overlapping_recalls(ctx, n):
     ds.uninstall()
 
 
+def large_capacity_case(ctx, n):
+  """a chart class that raises QUEUE_SIZE (the documented knob for queue capacities) defers more than the stock 500 events:
+  every one of them is held until recalled, oldest first"""
+  import miros.hsm as H
+  import miros.activeobject as AO
+  from miros.event import Event
+  rng = ctx.rng('large', n)
+  cap = rng.choice([600, 800, 1200])
+  base = rng.choice([H.HsmWithQueues, AO.ActiveObject])
+
+  class Roomy(base):
+    QUEUE_SIZE = cap
+  chart = Roomy() if base is H.HsmWithQueues else Roomy(name='c15_roomy')
+  k = rng.randint(501, cap - 20)
+  for i in range(k):
+    chart.defer(Event(signal='C15_L%d' % (i % 4), payload=i))
+  ctx.count('large_capacity_cases')
+  ctx.distinct(('large', cap, base.__name__, k > 550))
+  wit = {'QUEUE_SIZE_of_the_chart_class': cap, 'host': base.__name__, 'deferred': k}
+  if len(chart.defer_queue) != k:
+    ctx.violation('C15/deferred-event-lost', '%d events were deferred on a chart class with QUEUE_SIZE = %d, the defer queue holds %d' % (k, cap, len(chart.defer_queue)), wit)
+    return
+  for i in range(rng.randint(3, 12)):
+    e = chart.recall()
+    if e is None or e.payload != i:
+      ctx.violation('C15/recall-order', 'recall number %d returned %r, the oldest deferred event is number %d (chart class with QUEUE_SIZE = %d, %d events deferred)' % (i + 1, None if e is None else e.payload, i, cap, k), wit)
+      return
+    q = getattr(chart.queue, 'deque', chart.queue)
+    if q[-1] is not e:
+      ctx.violation('C15/recall-not-at-back', 'the recalled event %d is not at the back of the queue' % i, wit)
+      return
+
+
 def run_case(ctx, n):
+  if n % 40 == 39:
+    return large_capacity_case(ctx, n)
   if n % 6 == 5:
     return overlapping_recalls(ctx, n)
   r = qcheck.run_qcase(ctx, n, ('C15', 'C14'), allow_defer=True, spied=(True, False), instrumented=(True, False))
